@@ -96,10 +96,25 @@ def corpus_job(name, prog, inp, out, universe, consts, cfgs, family, checks=("se
     return job(family, prog, universe, cfgs, consts=consts, checks=checks, meta={"corpus": name})
 
 
-def family_jobs(names: Iterable[str], tier: str) -> Iterator[dict]:
+def family_jobs(names: Iterable[str], tier: str, variants: int = 0) -> Iterator[dict]:
+    """the programs of the named families; variants = k > 0 adds the syntactic and semantic variants
+    (vt/families/mutate.py) of k evenly spaced programs of the sub-bounded slice (quick) / of every program (thorough)"""
     for name in names:
         mod = importlib.import_module(f"vt.families.{name}")
-        yield from mod.jobs(tier)
+        if not variants:
+            yield from mod.jobs(tier)
+            continue
+        from vt.checks.C01 import slice_keep  # pylint: disable=import-outside-toplevel
+        from vt.families import mutate  # pylint: disable=import-outside-toplevel
+
+        jobs = list(mod.jobs(tier))
+        yield from jobs
+        keep = slice_keep(tier)
+        base = sorted((j for j in jobs if keep(j)), key=lambda j: j["id"])
+        if tier == "quick" and len(base) > variants:
+            base = [base[(k * len(base)) // variants] for k in range(variants)]  # evenly spaced
+        yield from mutate.variants(base)
+        yield from mutate.variants2(base)
 
 
 def remap(jobs: Iterable[dict], family: str, make_configs: Callable[[dict, dict], list], checks=("semantic",),
